@@ -36,9 +36,8 @@ func sliceDepthOfFloat(t types.Type) int {
 }
 
 func checkC06(c *Ctx) {
-	c.Rule("C06.R1", "ToGeoJSON: each geometry type T yields Type = T's RFC 7946 name and Coordinates of static type []float64 nested exactly as T requires (Point 1, MultiPoint/LineString 2, Polygon/MultiLineString 3, MultiPolygon 4); the decoder's case for name S decodes exactly that nesting and returns the geom type named S; the JSON members are \"type\" and \"coordinates\"")
-	c.Rule("C06.R2", "a position is built as [p.X, p.Y] and read back as X=e[0], Y=e[1] under a len(e)==2 guard")
-	c.Rule("C06.R3", "every conversion loop (encoder and decoder) is a full-range identity index map into a fresh slice of the source's length")
+	c.Rule("C06.R1", "model evaluation on small geometries of the six types (empty members in later positions): ToGeoJSON: each geometry type T yields Type = T's RFC 7946 name and Coordinates of static type []float64 nested exactly as T requires (Point 1, MultiPoint/LineString 2, Polygon/MultiLineString 3, MultiPolygon 4); the decoder's case for name S decodes exactly that nesting and returns the geom type named S; the JSON members are \"type\" and \"coordinates\"")
+	c.Rule("C06.R2", "FromGeoJSON on malformed documents (positions of 0, 1 or 3 numbers, wrong nesting depth, non-numbers, empty arrays, unknown type names, nil): an error, never a panic and never a geometry")
 	c.Rule("C06.R4", "Encode returns json.Marshal's error (non-finite coordinates) and an error for unsupported types")
 	c.Rule("C06.R6", "the bytes Encode returns are freshly allocated in the call (no package-level buffer, no sync.Pool object)")
 	c.Rule("C06.R5", "trust base of the exact round trip: number formatting and parsing are encoding/json's own (shortest representation that round-trips, errors for NaN/Inf) — no type of the package customises its JSON or text form")
@@ -47,20 +46,15 @@ func checkC06(c *Ctx) {
 		c.Unk("C06.R1", "encoding/geojson", token.NoPos, "package not loaded")
 		return
 	}
-	info := p.TypesInfo
-	c06encoder(c, info)
-	c06decoder(c, info)
+	c06model(c)
 	c06tags(c)
-	c06loops(c, p)
-	c06errors(c, info)
 	c06delegation(c, p)
 	checkFreshResult(c, "C06.R6", c.P.Func("encoding/geojson", "Encode"))
 	c.Floor("C06.R6", 1)
 	c.Floor("C06.R5", 1)
 	c.Floor("C06.R1", 13)
-	c.Floor("C06.R2", 3)
-	c.Floor("C06.R3", 8)
-	c.Floor("C06.R4", 2)
+	c.Floor("C06.R2", 1)
+	c.Floor("C06.R4", 3)
 }
 
 func c06encoder(c *Ctx, info *types.Info) {
